@@ -25,6 +25,7 @@ RULE = ('(a) product automaton of all resolver regexes (live Loader instance) x 
 ASSUMPTIONS = [
     'the regex->DFA translation is validated against re.match on every string enumerated in (b)',
     'the reference languages are the YAML 1.2 core-schema productions; a sign on .nan is accepted either way',
+    'strings ending in a line feed are not plain scalars (the scanner strips trailing white space) and are ignored',
     'strings outside the two alphabets are covered only by (a)',
 ]
 NUM_ALPHA = '019.eE+-_:xob'
@@ -44,6 +45,7 @@ REF_FLOAT = re.compile(r'(?:[-+]?(?:\.[0-9]+|[0-9]+(?:\.[0-9]*)?)(?:[eE][-+]?[0-
 REF_INTLIKE = re.compile(r'[-+]?[0-9]+\Z')
 REF_BOOL = re.compile(r'(?:true|True|TRUE|false|False|FALSE)\Z')
 DONTCARE = re.compile(r'[-+]\.(?:nan|NaN|NAN)\Z')
+NOTPLAIN = re.compile(r'[\x00-\U0010ffff]*\n\Z')
 
 
 def ref_is_float(s):
@@ -125,7 +127,7 @@ def check_string(s, res, full, dfas=None):
         for rx, d in dfas:
             if d.accepts(s) != (rx.match(s) is not None):
                 raise core.HarnessError('DFA disagrees with re.match on %r for %r' % (s, rx.pattern))
-    if got != want and not (DONTCARE.match(s) and got in (P + 'float', P + 'str')):
+    if got != want and not (DONTCARE.match(s) and got in (P + 'float', P + 'str')) and not NOTPLAIN.match(s):
         res.violation('C09:resolve:%s-as-%s' % (want[len(P):], got[len(P):]),
                       'plain scalar %r resolves to %s, YAML 1.2/PyYAML rules say %s' % (s, got, want),
                       {'kind': 'string', 'text': s})
@@ -188,17 +190,17 @@ def build_automata():
         return len(rxs) - 1
     t_impl = {k: [(t, idx(r)) for t, r in v] for k, v in table.items()}
     t_pris = {k: [(t, idx(r)) for t, r in v] for k, v in pristine.items()}
-    i_float, i_int, i_bool, i_dc = idx(REF_FLOAT), idx(REF_INTLIKE), idx(REF_BOOL), idx(DONTCARE)
+    i_float, i_int, i_bool, i_dc, i_np = idx(REF_FLOAT), idx(REF_INTLIKE), idx(REF_BOOL), idx(DONTCARE), idx(NOTPLAIN)
     nfas = [automata.compile_nfa(r) for r in rxs]
     keys = ''.join(k for k in list(table) + list(pristine) if k)
     syms = automata.alphabet(nfas, keys)
     dfas = [automata.to_dfa(n, syms) for n in nfas]
-    return rxs, dfas, syms, t_impl, t_pris, (i_float, i_int, i_bool, i_dc)
+    return rxs, dfas, syms, t_impl, t_pris, (i_float, i_int, i_bool, i_dc, i_np)
 
 
 def run_automata(res):
     try:
-        rxs, dfas, syms, t_impl, t_pris, (i_float, i_int, i_bool, i_dc) = build_automata()
+        rxs, dfas, syms, t_impl, t_pris, (i_float, i_int, i_bool, i_dc, i_np) = build_automata()
     except automata.Unsupported as e:
         res.extra['all_lengths'] = 0
         res.hist['automata-unsupported:' + str(e)[:60]] += 1
@@ -240,7 +242,7 @@ def run_automata(res):
         else:
             want = tag_of(t_pris, first, S)
         dc = dfas[i_dc].acc[S[i_dc]]
-        if impl != want and not (dc and impl in (P + 'float', P + 'str')):
+        if impl != want and not (dc and impl in (P + 'float', P + 'str')) and not dfas[i_np].acc[S[i_np]]:
             s = ''.join(automata.rep_char(syms[j]) for j in w)
             # confirm on the real resolver before reporting
             got = setup()[1].resolve(yaml.ScalarNode, s, (True, False))
